@@ -13,6 +13,16 @@ unsafe fn libc_kill(pid: i32) { extern "C" { fn kill(pid: i32, sig: i32) -> i32;
 
 async fn run(name: &str) -> Result<(), String> {
     match name {
+        // C07/C08: a control queued behind a Delete is never executed; its ticket must still resolve when the job task ends
+        "control_queued_behind_delete_resolves" => {
+            let (job, task) = start_job(sh("sleep 30"));
+            job.start().await;
+            let _d = job.delete();
+            let t = job.run(|_| {});
+            let r = timeout(Duration::from_secs(5), t).await;
+            let _ = timeout(Duration::from_secs(5), task).await;
+            r.map_err(|_| "the ticket of a control queued behind delete() was still unresolved 5 s later (the job task had ended without running it)".to_string())
+        }
         // C08: after a graceful stop + delete of a GROUPED command, no member of its process group is left running
         "grouped_graceful_stop_leaves_no_member" => {
             let dir = std::env::temp_dir().join(format!("vx-replay-sup-{}", std::process::id()));
